@@ -79,7 +79,7 @@ def prepare_lib(ctx):
     return dst
 
 
-def hook_script(lib, case, marker, deep):
+def hook_script(lib, case, marker, deep, midfail=False):
     failing = set(case["failing"])
     lines = ["#!/usr/bin/env bash", "source %s" % lib, "", "function __config__() {", "cat <<'VERIF_EOF'",
              (CONFIG_TEXT % marker).rstrip("\n"), "VERIF_EOF", "}", ""]
@@ -91,7 +91,9 @@ def hook_script(lib, case, marker, deep):
                   "  printf '%%s\\t%%s\\t%%s\\t%%s\\n' '%s' \"${BINDING_CONTEXT_CURRENT_INDEX-unset}\" "
                   "\"${BINDING_CONTEXT_CURRENT_BINDING-unset}\" %s >> \"$VERIF_LOG\"" % (h, seen)]
         if h in failing:
-            lines.append("  return 3")
+            # two ways for a handler to fail under the library's strict mode: an explicit non-zero return, or a failing
+            # command in the middle of the function (errexit ends the handler there; what follows would succeed)
+            lines += (["  false", "  true"] if midfail else ["  return 3"])
         lines += ["}", ""]
     lines += ['hook::run "$@"', ""]
     return "\n".join(lines)
@@ -105,7 +107,7 @@ def run_case(lib, base, n, case):
     marker = "m%d" % n
     hook = os.path.join(d, "hook.sh")
     with open(hook, "w") as f:
-        f.write(hook_script(lib, case, marker, deep))
+        f.write(hook_script(lib, case, marker, deep, midfail=(n % 2 == 1)))
     logp = os.path.join(d, "log")
     open(logp, "w").close()
     env = {k: v for k, v in os.environ.items() if not k.startswith("BINDING_CONTEXT")}
@@ -290,7 +292,7 @@ def check_c19(ctx):
                 break
     ctx.assumptions += ["the handler-name table of the spec header is the documented one (the repository documents the binding contexts, "
                         "not the handler names; the table follows the property statement and DESIGN 5/C19)",
-                        "a failing handler is a function returning 3; only zero / non-zero is compared",
+                        "a failing handler is a function returning 3 or (every other case) a function with a failing command in its middle (strict mode); only zero / non-zero is compared",
                         "bash and jq of the sandbox (bash 5.2, jq 1.6) are the interpreter of the code under test"]
     vlib.finish(ctx, rule="cases = finished runs of spec/ShellFramework enumerated exhaustively by TLC (quick: seeded stratified sample), each executed "
                           "once on the real framework; distinct_nontrivial = distinct (contexts, defined, failing) whose expected log has at least "
